@@ -24,7 +24,7 @@ func (v *ValuesPlanner) Process(ctx *shared.PlannerContext) (sql.ISelect, error)
 		From(sql.NewRawObject(ctx.TimeSeriesGinTableName)).
 		AndWhere(
 			sql.Ge(sql.NewRawObject("date"), sql.NewStringVal(FormatFromDate(ctx.From))),
-			sql.Le(sql.NewRawObject("date"), sql.NewStringVal(ctx.To.Format("2006-01-02"))),
+			sql.Le(sql.NewRawObject("date"), sql.NewStringVal(ctx.To.UTC().Format("2006-01-02"))),
 			sql.Eq(sql.NewRawObject("key"), sql.NewStringVal(v.Key)),
 			GetTypes(ctx),
 		)
